@@ -1,9 +1,12 @@
 /* C19 - qmail-popup.c: the whole program (main, pop3_greet, commands(), pop3_user/pass/
- * apop/quit, okay, err_authoriz, doanddie) on every stream of up to three command lines.
+ * apop/quit, okay, err_authoriz) on every stream of up to three command lines.
  * Encoded from /repo: qmail-popup.c (main renamed), commands.c, str_chr.c, case_diffs.c,
- * fmt_uint.c, fmt_ulong.c, byte_zero.c, substdio.c and the stralloc units.
- * substdio = ideal streams; stralloc_ready* = arena.  Stubs: pipe/fork/close/wait_pid/
- * execvp/getpid/time/_exit, sig_* (no-ops).
+ * fmt_uint.c, fmt_ulong.c and the stralloc units.
+ * substdio = ideal streams; stralloc_ready* = arena.  Stubs: getpid/time/_exit, sig_*.
+ * Cut: doanddie(user,userlen,pass) -> observing stub that checks its three arguments
+ * against the reference and ends the run; what doanddie does with them (pipe, fork,
+ * exactly  user NUL pass NUL timestamp NUL  on descriptor 3) is obligation popup_auth,
+ * proved for all strings of the lengths reachable here.
  *
  * Line lengths are concrete per query (L1, L2, L3 bytes including the LF; DESIGN 2.4), every
  * byte is symbolic (any value but NUL; LF exactly at the line ends).
@@ -16,15 +19,11 @@
  *   APOP name digest (one space between them): run the checker with name/digest;
  *               no space: -ERR and nothing happens
  *   NOOP: +OK.   QUIT: +OK and exit.
- *   any other verb: -ERR and NO effect (no pipe, no fork, no change of the remembered name)
- *   running the checker: descriptor 3 of the child reads  name NUL string NUL
- *   "<pid.time@hostname>" NUL - exactly these bytes, the timestamp being the one shown in
- *   the greeting - and the write end is closed after they are flushed; the child execs
- *   the subprogram given on the command line; afterwards -ERR iff the child crashed or
- *   exited nonzero; then exit. */
+ *   any other verb: -ERR and NO effect (checker not run, remembered name unchanged). */
 #include "verif.h"
 #include <stdio.h>
 #define puts popup_puts        /* qmail-popup.c defines its own puts(); keep it off libc's */
+void doanddie(char *user, unsigned int userlen, char *pass);   /* the cut callee, defined below */
 #include "gen_qmail-popup.c"
 
 #ifndef L1
@@ -41,23 +40,19 @@
 #define CHALLEN 18
 
 unsigned char in[N];
-int forkret;                   /* 100: parent, 0: child, -1: fork fails */
-int wstat;                     /* status reported by wait_pid */
 
 enum { EXP_NONE, EXP_OK, EXP_ERR, EXP_AUTH, EXP_QUIT };
 enum { V_USER, V_PASS, V_APOP, V_QUIT, V_NOOP, V_OTHER };
 
 static unsigned int inpos, nlines;
-static int eof_seen;
+static int eof_seen, auth_called;
 /* reference model */
 static int r_seenuser; static unsigned int r_us, r_ul;       /* remembered name = in[r_us..r_us+r_ul) */
-static int expect = EXP_NONE;                                  /* what the line just delivered must cause */
+static int expect = EXP_NONE;                                /* what the line just delivered must cause */
 static unsigned int a_us, a_ul, a_ps, a_pl;                  /* EXP_AUTH: name and string spans */
 /* observations */
 static unsigned int nreply; static unsigned char reply_sign; static unsigned int reply_pending;
 static unsigned char greet[32]; static unsigned int greetlen; static int greeted;
-static int closed3, piped, forked, closed_w, closed_r, waited, in_child;
-static unsigned char upb[32]; static unsigned int uplen, upflushed;
 static char *argv_[4] = { "qmail-popup", "h", "checkpw", 0 };
 
 void sym_inputs(void)
@@ -65,7 +60,7 @@ void sym_inputs(void)
 #ifdef REPLAY
 #include "replay_inputs.inc"
 #else
-  SYM_ARR(in); SYM(forkret); SYM(wstat);
+  SYM_ARR(in);
 #endif
 }
 
@@ -140,13 +135,6 @@ int ideal_getc(substdio *s)
 
 int ideal_putc(substdio *s, unsigned char c)
 {
-  if (s == &ssup) {
-    CHECK(expect == EXP_AUTH && forked && forkret > 0 && !closed_w, "C19(popup): credentials are written only by PASS/APOP, by the parent, to the pipe");
-    CHECK(s->fd == 4, "credentials go to the write end of the pipe");
-    if (uplen < sizeof upb) upb[uplen] = c;
-    ++uplen;
-    return 0;
-  }
   CHECK(s == &ssout, "replies go to descriptor 1");
   if (!greeted) { if (greetlen < sizeof greet) greet[greetlen] = c; ++greetlen; return 0; }
   if (reply_pending == 0) { reply_sign = c; }
@@ -156,74 +144,44 @@ int ideal_putc(substdio *s, unsigned char c)
 
 int ideal_flush(substdio *s)
 {
-  if (s == &ssup) { upflushed = uplen; return 0; }
   if (!greeted) {
     unsigned int k;
     static const char want[] = "+OK " CHAL "\r\n";
     greeted = 1;
     CHECK(greetlen == 4 + CHALLEN + 2, "greeting is +OK <pid.time@hostname>");
-    for (k = 0; k < 4 + CHALLEN + 2; ++k) CHECK(k < sizeof greet && greet[k] == (unsigned char) want[k], "greeting shows the APOP timestamp that is later handed to the checker");
+    for (k = 0; k < 4 + CHALLEN + 2; ++k) CHECK(k < sizeof greet && greet[k] == (unsigned char) want[k], "greeting shows the APOP timestamp <pid.time@hostname>");
     return 0;
   }
   if (reply_pending) { ++nreply; reply_pending = 0; }
   return 0;
 }
 
-int vf_close(int fd)
+void vf__exit(int status);
+
+/* the cut callee: arguments must be exactly the reference's name and string */
+void doanddie(char *user, unsigned int userlen, char *pass)
 {
-  if (fd == 3 && !piped) { CHECK(expect == EXP_AUTH, "C19(popup): nothing but PASS/APOP touches descriptor 3"); closed3 = 1; return 0; }
-  CHECK(piped && forked, "close after pipe and fork");
-  if (fd == 4) {
-    unsigned int k, j = 0;
-    closed_w = 1;
-    if (forkret == 0) return 0;                       /* child closes its copy of the write end */
-    /* parent: everything must be out, and it must be exactly name NUL string NUL challenge NUL */
-    CHECK(upflushed == uplen, "C19(popup): credentials flushed before the pipe is closed");
-    CHECK(uplen == a_ul + 1 + a_pl + 1 + CHALLEN + 1, "C19(popup): descriptor 3 carries name NUL password NUL timestamp NUL (length)");
-    for (k = 0; k < N; ++k) { if (k >= a_ul) break; CHECK(j < sizeof upb && upb[j] == in[a_us + k], "C19(popup): user name passed verbatim"); ++j; }
-    CHECK(j < sizeof upb && upb[j] == 0, "C19(popup): NUL after the name"); ++j;
-    for (k = 0; k < N; ++k) { if (k >= a_pl) break; CHECK(j < sizeof upb && upb[j] == in[a_ps + k], "C19(popup): password / digest passed verbatim"); ++j; }
-    CHECK(j < sizeof upb && upb[j] == 0, "C19(popup): NUL after the password"); ++j;
-    for (k = 0; k < CHALLEN; ++k) { CHECK(j < sizeof upb && upb[j] == (unsigned char) CHAL[k], "C19(popup): APOP timestamp <pid.time@hostname>"); ++j; }
-    CHECK(j < sizeof upb && upb[j] == 0, "C19(popup): NUL after the timestamp");
-    return 0;
+  unsigned int k;
+  CHECK(expect == EXP_AUTH, "C19(popup): only a complete USER+PASS or APOP starts the checker; no other verb has any effect");
+  CHECK(!auth_called, "once");
+  auth_called = 1;
+  if (expect == EXP_AUTH) {
+    CHECK(userlen == a_ul + 1, "C19(popup): user name length (including its NUL)");
+    for (k = 0; k < N; ++k) { if (k >= a_ul || k >= userlen) break; CHECK((unsigned char) user[k] == in[a_us + k], "C19(popup): user name passed verbatim"); }
+    if (userlen == a_ul + 1) CHECK(user[a_ul] == 0, "user name is NUL-terminated");
+    for (k = 0; k < N; ++k) { if (k >= a_pl) break; CHECK((unsigned char) pass[k] == in[a_ps + k], "C19(popup): password / digest passed verbatim"); if (!pass[k]) break; }
+    CHECK(pass[a_pl] == 0, "password ends where the line ends");
+    CHECK(nreply == nlines - 1 && reply_pending == 0, "no reply before the checker has run");
+    CHECK(hostname == argv_[1] && childargs == argv_ + 2, "hostname and subprogram come from the command line");
+    { static const char u[] = "123.1000000000@"; for (k = 0; k < 16; ++k) CHECK(unique[k] == u[k], "timestamp = pid.time@"); }
+    if (a_ul == 3 && a_pl == 3 && nlines == 2) WITNESS("user3_pass3");
+    if (nlines == 1) WITNESS("apop");
+    if (nlines >= 2) WITNESS("user_pass");
   }
-  if (fd == 3) { closed_r = 1; return 0; }
-  CHECK(0, "no other descriptor is closed");
-  return 0;
-}
-
-int vf_pipe(int pi[2])
-{
-  CHECK(expect == EXP_AUTH, "C19(popup): only a complete USER+PASS or APOP starts the checker");
-  CHECK(closed3 && !piped, "descriptor 3 is free when the pipe is made");
-  piped = 1; pi[0] = 3; pi[1] = 4;
-  return 0;
-}
-
-pid_t vf_fork(void)
-{
-  CHECK(expect == EXP_AUTH && piped && !forked, "C19(popup): fork only for the checker, once");
-  forked = 1;
-  return forkret;
-}
-
-int vf_execvp(const char *file, char *const av[])
-{
-  CHECK(forked && forkret == 0, "exec in the child only");
-  CHECK(closed_w, "child closes the write end: it reads descriptor 3 until EOF");
-  CHECK(file == argv_[2] && av == argv_ + 2, "C19(popup): the child runs the subprogram from the command line");
-  CHECK(uplen == 0 && reply_pending == 0, "child writes nothing");
-  WITNESS("child_execs_checker");
   PATH_END();
-  return -1;
-}
-
-int wait_pid(int *w, int pid)
-{
-  CHECK(forked && forkret > 0 && pid == forkret && closed_w, "parent waits for the checker after closing the pipe");
-  waited = 1; *w = wstat;
-  return pid;
+#ifdef VERIF_CBMC
+  __CPROVER_assume(0);
+#endif
 }
 
 pid_t vf_getpid(void) { return 123; }
@@ -234,26 +192,13 @@ void sig_pipedefault(void) {}
 
 void vf__exit(int status)
 {
+  CHECK(!auth_called, "stub ends the run itself");
   if (expect == EXP_QUIT) {
     CHECK(nreply == nlines && reply_pending == 0 && reply_sign == '+', "QUIT is answered +OK");
-    CHECK(!piped && !forked, "QUIT starts nothing");
     WITNESS("quit");
-  } else if (expect == EXP_AUTH) {
-    CHECK(piped && forked, "C19(popup): USER+PASS / APOP runs the checker");
-    if (forkret > 0) {
-      CHECK(closed_w && waited, "parent closed the pipe and waited");
-      if ((wstat & 127) || (wstat >> 8)) { CHECK(nreply == nlines && reply_sign == '-', "qmail-popup(8): error message if the subprogram crashes or exits nonzero"); WITNESS("auth_failed"); }
-      else { CHECK(nreply == nlines - 1, "no reply of its own after a successful subprogram"); WITNESS("auth_ok"); }
-      if (a_ul == 3 && a_pl == 3 && nlines == 2) WITNESS("user3_pass3");
-      if (nlines == 1 && a_ul >= 1 && a_pl >= 1) WITNESS("apop");
-    } else {
-      CHECK(forkret == -1 && nreply == nlines && reply_sign == '-', "fork failure is reported");
-      CHECK(uplen == 0, "nothing written without a child");
-    }
   } else {
     CHECK(eof_seen, "C19(popup): the program ends only at QUIT, after the checker, or at end of input");
     CHECK(nlines == (L3 ? 3 : L2 ? 2 : 1), "all lines consumed");
-    CHECK(!piped && !forked && !closed3, "C19(popup): nothing was started");
     WITNESS("end_of_input");
   }
   PATH_END();
@@ -270,9 +215,6 @@ void vmain(void)
     int islf = (i == L1 - 1) || (L2 && i == L1 + L2 - 1) || (L3 && i == N - 1);
     ASSUME(islf ? in[i] == '\n' : (in[i] != '\n' && in[i] != 0));
   }
-  ASSUME(forkret == 100 || forkret == 0 || forkret == -1);
-  /* a wait status is either "exited with code c" (c << 8) or "killed by signal" (low 7 bits, + core flag) */
-  ASSUME(wstat >= 0 && ((wstat & 0x7f) == 0 ? ((wstat & 0x80) == 0 && wstat <= 0xff00) : wstat <= 0xff));
   ref_line(0, 0, L1 - 1);
   if (L2) ref_line(1, L1, L1 + L2 - 1);
   if (L3) ref_line(2, L1 + L2, N - 1);
